@@ -32,7 +32,8 @@ Parts
 
 Hardening pass (input classes, see notes/C03.md "Hardening pass"): three "notation" axes in the lattice -
 `bits` (container in which the word is handed to DAC / PPM_ENCODER and later to the counter), `gv` (call form
-of the grid configuration incl. non-integer fs/R and a reconfigured grid), `num` (Python int / numpy scalar
+of the grid configuration incl. non-integer fs/R, a reconfigured grid and - after seeded wave 6 - one-keyword calls
+gv(R=.) / gv(sps=.) / gv(fs=.) as the last step of a two-step history, part link.gvhist), `num` (Python int / numpy scalar
 form of every scalar argument); parts link.short (shortest legal records) and link.long (127..8193 slots);
 records beyond GET_EYE's nslots for the packaged routines; ppm.DSP threshold= / decision spelling / ndarray
 input / numpy M; structured PPM data words; zero-noise carriers, extreme launch powers, dispersion at 0.99 %.
@@ -95,8 +96,14 @@ AXES = [
     # how the global grid is configured (see configure_gv): by (sps,R) | (sps,fs) | (R,fs) | R first, then fs alone |
     # (R,fs) with a NON-integer fs/R = sps+0.3 / sps-0.4 (the library rounds to sps; link parameters then respect the quantifier
     # for BOTH readings of the slot rate, gv.R and gv.fs/gv.sps) | after another grid had been configured, with N set and
-    # wavelength 1310 nm
-    ('gv', ['sps,R', 'sps,fs', 'R,fs', 'fs', 'R,fs+', 'R,fs-', 'hist']),
+    # wavelength 1310 nm |
+    # (after seeded wave 6) a ONE-keyword call as the last step of a two-step history, no clean in between: another grid is in
+    # force and only the slot rate / only sps / only fs is then changed ('R<' 'R>' 'sps<' 'sps>' 'fs<' 'fs>': the changed quantity
+    # goes down / up; see GV_LAST, configure_gv).  Documented semantics of global_variables.__call__: R alone keeps sps and sets
+    # fs = R*sps; sps alone keeps R and sets fs = R*sps; fs alone keeps R and sets sps = round(fs/R).  The link is then built for
+    # the (sps, R) that is in force by these rules.  The six axis members take their first step from GV_FIRST in rotation; the part
+    # link.gvhist runs the whole product first step x last step.
+    ('gv', ['sps,R', 'sps,fs', 'R,fs', 'fs', 'R,fs+', 'R,fs-', 'hist', 'R<', 'R>', 'sps<', 'sps>', 'fs<', 'fs>']),
     # number form of every scalar argument: Python float | Python int where the value is integer-valued | np.float64 (+ np.int64
     # sps / sampling instant) | np.int64 where integer-valued and the block has no documented scalar-type test, else np.float64
     ('num', ['float', 'int', 'np', 'npint']),
@@ -315,6 +322,24 @@ def numform(form):
 
 
 GV_FRACTIONAL = {'R,fs+': 0.3, 'R,fs-': -0.4}
+# Two-step grid histories whose LAST step is a call with at most one of the keywords sps / R / fs (added after seeded wave 6).
+#   last step  R<  R>    gv(R=R)       after the grid (sps, 16 R) / (sps, R/16) : the slot rate is changed down / up, sps is kept
+#              sps< sps> gv(sps=sps)   after the grid (4 sps, R) / (sps//4, R)   : sps is changed down / up, the slot rate is kept
+#              fs<  fs>  gv(fs=sps*R)  after the grid (4 sps, R) / (sps//4, R)   : the sampling rate is changed, the slot rate is kept
+#              keep      gv()          after the grid (sps, R)                    : documented "previous values" (N=3 when the first
+#                                                                                   step set N)
+#   first step the previous grid written as (sps,R) | (sps,fs) | (R,fs), without / with N=10 (then t, w, dw exist and are rebuilt)
+# The factors 16 (four steps of the SDH rate ladder) and 4 put the previous grid far enough from the new one that a quantity left
+# over from it (fs, dt, sps, R) is off by more than the link tolerates; the previous grid itself is never used for a link.
+GV_LAST = ('R<', 'R>', 'sps<', 'sps>', 'fs<', 'fs>', 'keep')
+GV_FIRST = ('sps,R', 'sps,fs+N', 'R,fs', 'sps,R+N', 'sps,fs', 'R,fs+N')
+GV_AXIS_FIRST = dict(zip(GV_LAST[:6], GV_FIRST))          # first step of the six members of the `gv` axis (every form once)
+GV_HISTORIES = [f'{a};{b}' for b in GV_LAST for a in GV_FIRST]
+
+
+def gv_key(form):
+    """label of a `gv` form in violation keys: the last step for the two-step histories"""
+    return form.split(';')[1] if ';' in form else form
 
 
 def configure_gv(form, sps, R, f, fi):
@@ -337,6 +362,33 @@ def configure_gv(form, sps, R, f, fi):
         elif form in GV_FRACTIONAL:              # non-integer fs/R: the library rounds it to sps and keeps the fs it was given
             fs = (sps + GV_FRACTIONAL[form]) * R
             gv_reset(R=f(R), fs=f(fs))
+        elif form in GV_AXIS_FIRST or ';' in form:
+            first, last = form.split(';') if ';' in form else (GV_AXIS_FIRST[form], form)
+            assert last in GV_LAST and first in GV_FIRST, form
+            # the grid in force before the last call: differs from the target in exactly the quantity the last call changes
+            sp, Rp = sps, R
+            if last in ('R<', 'R>'):
+                Rp = 16 * R if last == 'R<' else R / 16
+            elif last != 'keep':
+                sp = 4 * sps if last[-1] == '<' else sps // 4
+            kw = {'N': 10} if first.endswith('+N') else {}
+            how = first[:-2] if kw else first
+            if how == 'sps,R':
+                gv_reset(sps=fi(sp), R=f(Rp), **kw)
+            elif how == 'sps,fs':
+                gv_reset(sps=fi(sp), fs=f(sp * Rp), **kw)
+            else:
+                gv_reset(R=f(Rp), fs=f(sp * Rp), **kw)
+            if last in ('R<', 'R>'):
+                gv(R=f(R))
+            elif last in ('sps<', 'sps>'):
+                gv(sps=fi(sps))
+            elif last in ('fs<', 'fs>'):
+                gv(fs=f(fs))
+            elif kw:
+                gv(N=3)
+            else:
+                gv()
         else:                                    # a different grid was configured before (no clean in between); N set; 1310 nm
             assert form == 'hist'
             gv_reset(sps=4 if sps == 64 else 64, R=2.5e9, N=10)
@@ -470,7 +522,7 @@ def key_class(cfg):
     block shows up under the classes that contain that block, so different defects get different keys"""
     d = dict(zip(NAMES, cfg))
     dev = [v for v, b in ((d['pulse'], 'nrz'), (d['layout'], '1pol'), (d['chan'].rstrip('+-'), 'none'), (d['txopt'], 'std'),
-                          ('pd-' + d['pdopt'], 'pd-std'), ('bits-' + d['bits'], 'bits-u8'), ('gv-' + d['gv'], 'gv-sps,R'),
+                          ('pd-' + d['pdopt'], 'pd-std'), ('bits-' + d['bits'], 'bits-u8'), ('gv-' + gv_key(d['gv']), 'gv-sps,R'),
                           ('num-' + d['num'], 'num-float')) if v != b]
     return '+'.join(dev) if dev else 'base'
 
@@ -886,8 +938,12 @@ def run(ctx):
              f'x KMeans seed alphabet {(0, 1) if quick else (0, 1, 2)}; ook.DSP(BW=min(2R, 0.4fs)) on the k<=1 configurations; '
              f'hardening pass: link.short = every word of length {short_lengths} whose waveform exceeds the 16-sample padding, link.long = '
              f'seeded / single-1 / single-0 words of {long_lengths} slots, both on the k<=1 configurations; the notation axes '
-             f'{NOTATION_AXES} (container of the bit word incl. write-protected ndarrays, gv call form incl. non-integer fs/R, number '
-             f'form of every scalar) are option deviations; the comparison operator is asked with the threshold written as '
+             f'{NOTATION_AXES} (container of the bit word incl. write-protected ndarrays, gv call form incl. non-integer fs/R and '
+             f'one-keyword calls gv(R=.) / gv(sps=.) / gv(fs=.) made while another grid is in force, number '
+             f'form of every scalar) are option deviations; link.gvhist = the {len(GV_HISTORIES)} two-step grid histories (previous grid '
+             f'written as {GV_FIRST}, last step {GV_LAST}: one keyword alone changing its quantity down / up by 16x (R) or 4x (sps, fs), '
+             f'or no keyword) x every sps x every R' + ('' if quick else ' x both pulse shapes') + f' x {2 if quick else 8} fixed words, the link '
+             f'built for the (sps, R) that the documented gv rules leave in force; the comparison operator is asked with the threshold written as '
              f'{THRESHOLD_FORMS}; ook.dsp additionally on records of {dsp_long_lengths} slots (GET_EYE nslots 4096 / 8192) and with '
              f'BW written as {BW_FORMS}; ppm.dsp additionally with hard decision at an explicit midway threshold, decision strings in '
              f'other letter case, the record as plain ndarray, M written as {M_FORMS}, the structured data words {STRUCTURED}, 1 and 3 '
@@ -936,6 +992,23 @@ def run(ctx):
     cases = [(c, w) for c in latk for w in fw]
     m2 = ctx.pmap('link.lattice', link_case, cases, horizon=30)
     print(f'[C03] link.lattice done in {time.time()-t0:.1f}s', flush=True); t0 = time.time()
+
+    # --- part 2a (after seeded wave 6): two-step grid histories ending in a call with at most one of sps / R / fs.  The whole
+    # product first step (3 call forms x N unset / set) x last step (R / sps / fs alone, each changing its quantity down and up, and
+    # the keyword-less call) on every sps and slot rate of the lattice; thorough: all fixed words and both pulse shapes
+    gi = NAMES.index('gv')
+    hist_cfgs = []
+    for h in GV_HISTORIES:
+        for pulse in (('nrz',) if quick else ('nrz', 'gaussian')):
+            for R in dict(AXES)['R']:
+                for sps in dict(AXES)['sps']:
+                    c = list(point(sps=sps, R=R, pulse=pulse))
+                    c[gi] = h
+                    hist_cfgs.append(tuple(c))
+    ctx.space('config.gv-histories', len(GV_HISTORIES))
+    hw = [fw[4], fw[5]] if quick else fw
+    m2 += ctx.pmap('link.gvhist', link_case, [(c, w) for c in hist_cfgs for w in hw], horizon=30)
+    print(f'[C03] link.gvhist done in {time.time()-t0:.1f}s', flush=True); t0 = time.time()
     ms = [m for m in (m1 + m1a + m1b + m2) if m is not None]
     if ms:
         ctx.extra['min_relative_decision_margin'] = round(min(ms), 4)   # (distance of the closest sample to the threshold)/(m1-m0); 0.5 = ideal
